@@ -1003,8 +1003,23 @@ def lin(t):
                     return {k: v * b[1] for k, v in a[0].items() if v * b[1] != 0}, a[1] * b[1]
             if x[0] == "un" and x[1] == "Deref":
                 return rec(x[2])
+            if x[0] == "call" and x[1].rsplit("::", 1)[-1] == "len" and len(x[2]) == 1:
+                return {repr(("len", strip_upd(x[2][0]))): 1}, 0       # Vec::len / <[T]>::len of the same sequence: the same number
+            if x[0] == "cast" and len(x) == 3 and x[2] in ("usize", "u64", "u32", "i32", "i64", "isize"):
+                return rec(x[1])
         return {repr(x): 1}, 0
     return rec(t)
+
+
+def unself(t):
+    """`self` seen from inside a loop that changes some of its fields is still the same object: loopin/loopout(self) -> p(self), `upd`s dropped"""
+    if isinstance(t, tuple):
+        if t and t[0] in ("loopin", "loopout") and len(t) >= 3 and t[1] == "self":
+            return ("p", "self")
+        if t and t[0] == "upd":
+            return unself(t[1])
+        return tuple(unself(x) for x in t)
+    return t
 
 
 def seq_walk(src, lid, X):
@@ -1025,17 +1040,17 @@ def seq_walk(src, lid, X):
 
     def minus(a, b):
         return mk_bin("Sub", mk_bin("Sub", a, b), ("lit", "1"))
-    if strip_upd(inner) == X:
+    if unself(inner) == X:
         d = "rev" if rv else "fwd"
         out[d] = lambda t, item=item: strip_upd(t) == strip_upd(item)
         if cnt is not None:
             out["pos"][d] = lin(minus(LEN, cnt)) if rv else lin(cnt)
         return out
     rng = range_of(inner)
-    if rng is not None and rng[0] == ("lit", "0") and lin(strip_upd(rng[1])) == lin(LEN):
+    if rng is not None and rng[0] == ("lit", "0") and lin(unself(rng[1])) == lin(LEN):
         j = item
-        same = lambda t, j=j: isinstance(t, tuple) and len(t) == 3 and t[0] == "idx" and strip_upd(t[1]) == X and lin(strip_upd(t[2])) == lin(strip_upd(j))
-        flip = lambda t, j=j: isinstance(t, tuple) and len(t) == 3 and t[0] == "idx" and strip_upd(t[1]) == X and lin(strip_upd(t[2])) == lin(minus(LEN, strip_upd(j)))
+        same = lambda t, j=j: isinstance(t, tuple) and len(t) == 3 and t[0] == "idx" and unself(t[1]) == X and lin(unself(t[2])) == lin(unself(j))
+        flip = lambda t, j=j: isinstance(t, tuple) and len(t) == 3 and t[0] == "idx" and unself(t[1]) == X and lin(unself(t[2])) == lin(minus(LEN, unself(j)))
         if rv:
             out["rev"], out["fwd"] = same, flip
             out["pos"]["rev"], out["pos"]["fwd"] = lin(j), lin(minus(LEN, j))
